@@ -321,6 +321,9 @@ type block struct {
 	outer      *block
 	breaking   *block // set when the 'finally' block is an empty break statement sequence
 	needResult bool
+	// set for a label whose statement is (through further labels only) an iteration statement,
+	// i.e. the label is a valid 'continue' target
+	loopLabel bool
 }
 
 func (c *compiler) leaveScopeBlock(enter *enterBlock) {
@@ -1348,8 +1351,9 @@ func (c *compiler) enterDummyMode() (leaveFunc func()) {
 		var last *block
 		for b := savedBlock; b != nil; b = b.outer {
 			nb := &block{
-				typ:   b.typ,
-				label: b.label,
+				typ:       b.typ,
+				label:     b.label,
+				loopLabel: b.loopLabel,
 			}
 			copies[b] = nb
 			if last == nil {
